@@ -328,6 +328,12 @@ pub fn run_property<P: Property>(p: &P, opts: &RunOpts) -> RunSummary {
                                 Ok(())
                             }
                             CaseResult::Violation(v, rep) => {
+                                // triage aid: VERIF_ONLY_SIG=<signature> searches for that one signature only
+                                if let Ok(only) = std::env::var("VERIF_ONLY_SIG") {
+                                    if v.signature != only {
+                                        return Ok(());
+                                    }
+                                }
                                 if let Some(k) = known_match(known, p.id(), &v.signature) {
                                     if std::env::var("VERIF_SAVE_KNOWN").is_ok() && {
                                         let mut g = SAVED_KNOWN.lock().unwrap();
